@@ -139,6 +139,42 @@ func checkC25(c *Ctx, r *Report) {
 				}
 			}
 			r.Check(okg, r4, sf, "insertion", in, "insertion guarded by the count", "insertion into the sample is not bounded by the count parameter")
+			// cardinality: the insertion is on the 'remaining != 0' side of the test of a
+			// counter that starts at n and is decremented once on the way back to the
+			// loop head (one insertion consumes one unit of the budget)
+			var cnt *ssa.Phi
+			instrsOf(sf, func(in2 ssa.Instruction) {
+				phi, isPhi := in2.(*ssa.Phi)
+				if !isPhi {
+					return
+				}
+				fromN, dec := false, false
+				for _, e := range phi.Edges {
+					if e == ssa.Value(nparam) {
+						fromN = true
+					}
+					if b, isB := e.(*ssa.BinOp); isB && b.Op == token.SUB && b.X == ssa.Value(phi) {
+						if k, isK := intConst(b.Y); isK && k == 1 {
+							dec = true
+						}
+					}
+				}
+				if fromN && dec {
+					cnt = phi
+				}
+			})
+			okc := false
+			if cnt != nil {
+				budget := guardedBy(in, eqFact(func(b *ssa.BinOp) bool { return b.X == ssa.Value(cnt) && isConstZero(b.Y) }, false))
+				consumed := false
+				instrsOf(sf, func(in2 ssa.Instruction) {
+					if b, isB := in2.(*ssa.BinOp); isB && b.Op == token.SUB && b.X == ssa.Value(cnt) && (b.Block() == in.Block() || in.Block().Dominates(b.Block())) {
+						consumed = true
+					}
+				})
+				okc = budget && consumed
+			}
+			r.Check(okc, r4, sf, "insertion consumes the budget", in, "on the remaining!=0 side, counter decremented", "an element is inserted into the sample without consuming one unit of the n-element budget (the sample can grow beyond n)")
 		})
 	}
 
